@@ -70,7 +70,8 @@ def _case(draw, targets=None, focus=None):
     unused = draw(st.lists(st.tuples(st.sampled_from(FOREIGN + VAR_NAMES),
                                      st.sampled_from(["7", "0.25", "LAMMPS", "as.constant 1", "1 2 3 4", "cubic_spline"])),
                            min_size=0, max_size=3, unique_by=lambda t: t[0]))
-    return {"model": m, "lifts": lifts, "unused": [list(u) for u in unused]}
+    return {"model": m, "lifts": lifts, "unused": [list(u) for u in unused],
+            "route": draw(st.sampled_from(["inproc", "inproc", "main"]))}
 
 
 def strategy(tier):
@@ -204,8 +205,8 @@ def check_case(case):
     want = anymodel.outcome(ptext, target)
     if want[0] == "exception":
         return {"v": [], "cls": cls, "nt": False, "skip": True}
-    if case.get("route") == "cli":
-        got = anymodel.cli_outcome(text, target, [])
+    if case.get("route") in ("cli", "main"):
+        got = anymodel.cli_outcome(text, target, [], inproc=case["route"] == "main")
     else:
         got = anymodel.outcome(text, target)
     v = []
